@@ -109,6 +109,30 @@ def real_verdict(util, data, sw, C, sel, T, fresh=False):
         return type(exc).__name__
 
 
+_BUFFERS = {}
+
+
+def mutable_window(rng, data, sw, C, sel, T):
+    """The window as the caller may hold it: bytes, or a preallocated bytearray / memoryview / array that is refilled in
+    place for every window (the normal pattern of a capture loop) -- one buffer per validator configuration and length."""
+    kind = rng.choice(["bytes", "bytes", "bytearray", "memoryview", "array"])
+    if kind == "bytes":
+        return data
+    key = (kind, len(data), sw, C, sel, T)
+    buf = _BUFFERS.get(key)
+    if buf is None:
+        if len(_BUFFERS) > 5000:
+            _BUFFERS.clear()
+        buf = _BUFFERS[key] = bytearray(len(data))
+    buf[:] = data
+    if kind == "bytearray":
+        return buf
+    if kind == "memoryview":
+        return memoryview(buf)
+    import array
+    return memoryview(buf).cast({1: "b", 2: "h", 4: "i"}[sw]) if False else buf
+
+
 def check(prop, tier, replay=None):
     import_auditok()
     from auditok import util
@@ -219,7 +243,7 @@ def check(prop, tier, replay=None):
         if bnd and not boundary_usable(2 * k, C, sel, bnd == 1):
             continue
         data = enc(vals, sw)
-        got = real_verdict(util, data, sw, C, sel, 10 * k)
+        got = real_verdict(util, mutable_window(rng, data, sw, C, sel, 10 * k), sw, C, sel, 10 * k)
         tcases.append({"b": list(data), "sw": sw, "c": C, "selk": sel[0], "name": ("none" if sel[1] is None else sel[1]) if sel[0] == "name" else "",
                        "idx": sel[1] if sel[0] == "idx" else 0, "k": k, "got": got, "vals": vals, "mirror": mv})
     tcfg = "SPECIFICATION Spec\nCONSTRAINT Mon\nPOSTCONDITION Post\nCHECK_DEADLOCK FALSE\n"
